@@ -126,7 +126,7 @@ func c03sig(style string, c corruption, what string) string {
 func TestC03(t *testing.T) {
 	rep := lib.NewReport("C03", "fault_enumeration")
 	defer rep.Finish(t)
-	rep.Rule = "for objects of 1..6 leaves at L=64 (+ a second object in the store): every single-blob corruption (one-bit flip at every byte, all 8 bits of first/last byte; truncation to every length; 1-byte extension; deletion; replacement by every other blob) x every read style on a cold Fs (Read with 3 buffer sizes, ReadAt whole and per leaf, WriteTo plain writer, WriteTo WriterAt, io.Copy) and a full bundle download (core.Publish) into localfs and into a map store; oracle: error, or bytes identical to the original (streams: correct prefix before the error; destinations: no byte differs at its offset); distinct = distinct (object, blob, corruption) faults"
+	rep.Rule = "(every read style on a fresh file system object, and the random-access reads repeated three rounds x twice on one file system object with prefetch 0 and 1) for objects of 1..6 leaves at L=64 (+ a second object in the store): every single-blob corruption (one-bit flip at every byte, all 8 bits of first/last byte; truncation to every length; 1-byte extension; deletion; replacement by every other blob) x every read style on a cold Fs (Read with 3 buffer sizes, ReadAt whole and per leaf, WriteTo plain writer, WriteTo WriterAt, io.Copy) and a full bundle download (core.Publish) into localfs and into a map store; oracle: error, or bytes identical to the original (streams: correct prefix before the error; destinations: no byte differs at its offset); distinct = distinct (object, blob, corruption) faults"
 	L := 64
 	ctx := context.Background()
 	sizes := []int{1, 64, 65, 128, 200, 383, 384}
@@ -276,6 +276,42 @@ func c03observe(rep *lib.Report, st *lib.MemStore, key cafs.Key, data []byte, L,
 			}
 			if k != len(want) || !bytes.Equal(buf[:max0(k)], want) {
 				rep.Violate(c03sig(style, c, "wrong-bytes-no-error"), fmt.Sprintf("%s off=%d len=%d: returned %d bytes err=%v differing from the original", desc(style)(), q.off, q.l, k, err), rp)
+			}
+		})
+	}
+	// the same reads again on ONE file system object: a read that failed verification must not leave anything behind
+	// (a cached leaf, a remembered key list) that lets a later read of the same content succeed with the damaged bytes
+	for _, prefetch := range []int{0, 1} {
+		warm := newFs(st, L, 1, prefetch, 8)
+		style := "ReadAt-repeated-on-one-fs"
+		guard(rep, c03sig(style, c, "x"), desc(style), rp, func() {
+			for round := 0; round < 3; round++ {
+				r, err := warm.GetAt(ctx, key)
+				rep.Eval(1)
+				if err != nil {
+					continue
+				}
+				for _, q := range ras {
+					for again := 0; again < 2; again++ {
+						buf := make([]byte, q.l)
+						k, err := r.ReadAt(buf, int64(q.off))
+						if err != nil && err != io.EOF {
+							continue
+						}
+						end := q.off + q.l
+						if end > n {
+							end = n
+						}
+						var want []byte
+						if q.off < n {
+							want = data[q.off:end]
+						}
+						if k != len(want) || !bytes.Equal(buf[:max0(k)], want) {
+							rep.Violate(c03sig(style, c, "wrong-bytes-no-error"), fmt.Sprintf("%s prefetch=%d round %d, %s read of off=%d len=%d: returned %d bytes err=%v differing from the original", desc(style)(), prefetch, round, map[int]string{0: "first", 1: "second"}[again], q.off, q.l, k, err), rp)
+							return
+						}
+					}
+				}
 			}
 		})
 	}
